@@ -6,7 +6,7 @@ from .C03 import _rank_profiles, _pick
 
 AOPTS = {'scalar_mode': 'A', 'logic': None, 'setup': {'factor_mode': 'exact'}, 'case_timeout_s': 120}
 
-THOROUGH_SEEDS = 3
+THOROUGH_SEEDS = 5
 
 
 def cases(tier, seed):
@@ -16,7 +16,7 @@ def cases(tier, seed):
     structs = [([3], [1, 1]), ([1], [1, 1]), ([2, 3], [1, 2, 1]), ([2, 3], [1, 3, 1]), ([2, 1, 3], [1, 2, 2, 1]), ([1, 1, 1], [1, 2, 1, 1]),
                ([2, 2, 2], [1, 2, 3, 1])]
     if th:
-        structs += [([2, 3, 2, 2], [1, 2, 3, 2, 1]), ([2, 1, 2, 1, 2], [1, 2, 2, 2, 2, 1])]
+        structs += [([2, 3, 2, 2], [1, 2, 3, 2, 1]), ([2, 1, 2, 1, 2], [1, 2, 2, 2, 2, 1]), ([4, 3], [1, 3, 1]), ([3, 2, 3], [1, 3, 2, 1]), ([2, 2, 2, 2], [1, 2, 2, 2, 1])]
     # ---- norm, tracked by autograd (Gram chain)
     for N, R in structs:
         for sq in (True, False):
